@@ -19,7 +19,7 @@ from vcheck import core
 from vcheck.val import from_jsonable, jsonable, zlit
 
 PROP = "C16"
-COQ_TARGETS = ["theories/Model/OptimRun.vo", "theories/Model/NestedRun.vo"]
+COQ_TARGETS = ["theories/Model/OptimRun.vo", "theories/Model/NestedRun.vo", "theories/Model/NestedNSRun.vo"]
 IMPL = "c16_impl.py"
 
 # ====================================================================== wrapper cases
@@ -646,6 +646,11 @@ def oracle_hyp(c, r):
         elif abs(ini["lnL_init"] - ini["lnL_nested"]) > EQ_TOL:
             cause = "init-lnL-differs"
             bad.append(("hyp:init-lnL-differs", f"model {i}: lnL after initialisation {ini['lnL_init']} != nested {ini['lnL_nested']}"))
+        elif ini["nfp_self"] != r["nfp"][i]:
+            cause = "initialised-before-fully-configured"
+            bad.append(("hyp:initialised-before-fully-configured",
+                        f"model {i} had {ini['nfp_self']} free parameters when initialise_from_nested ran but {r['nfp'][i]} when "
+                        "fitted: it was initialised before its configuration (time_het / param_rules) was complete"))
         elif abs(ini["lnL_nested"] - prev) > EQ_TOL:
             cause = "initialised-from-another-model"
             bad.append(("hyp:initialised-from-another-model", f"model {i} was initialised from a function with lnL "
@@ -972,12 +977,140 @@ def compare_nested_logic(rep, pmap_cases, pmap_out, scoped_cases, scoped_out, pr
     return n_ok
 
 
+# ---------------------------------------------------------------------- stationary -> non-stationary projection
+
+PMAPNS_PAIRS = [("HKY85", "GN"), ("TN93", "GN"), ("GTR", "GN"), ("F81", "GN"), ("K80", "GN"), ("JC69", "GN"), ("K80", "ssGN"),
+                ("HKY85", "ssGN")]
+
+
+def rand_fracs(rng, n, lo=1, hi=9):
+    return [[rng.randint(lo, hi), rng.randint(1, 9)] for _ in range(n)]
+
+
+def rand_pmapns(rng):
+    """GN-like rich dictionaries (one parameter per cell, one reference cell) with perturbations"""
+    dim = rng.choice([3, 4])
+    cells = [(i, j) for i in range(dim) for j in range(dim) if i != j]
+    simple, used = [], set()
+    for k in range(rng.randint(0, 3)):
+        cs = sorted(c for c in rng.sample(cells, rng.randint(1, 5)) if c not in used)
+        if cs:
+            used |= set(cs)
+            simple.append([f"s{k}", cs])
+    rest = [c for c in cells if c not in used]
+    if not rest:
+        rest = simple.pop()[1]
+    simple.append(["ref_cell", sorted(rest)])
+    order = cells[:]
+    rng.shuffle(order)
+    nref = 1 if rng.random() < 0.8 else 2
+    pool = [c for c in order if c in set(rest)] if rng.random() < 0.85 else order
+    refc = pool[:nref]
+    others = [c for c in order if c not in refc]
+    rich = []
+    while others:
+        c = others.pop()
+        group = [c]
+        u = rng.random()
+        if u < 0.12 and others:                       # a two-cell parameter, same target state if possible
+            same = [d for d in others if d[1] == c[1]]
+            d = rng.choice(same) if same and rng.random() < 0.7 else rng.choice(others)
+            others.remove(d)
+            group.append(d)
+        rich.append([f"r{len(rich)}", sorted(group)])
+    if rng.random() < 0.08 and len(rich) > 1:
+        rich[0][1] = sorted(set(rich[0][1]) | {rich[1][1][0]})   # overlapping parameters
+    rich.append(["ref_cell", sorted(refc)])
+    return dict(kind="pmapns", rich=[[n, [list(c) for c in cs]] for n, cs in rich],
+                simple=[[n, [list(c) for c in cs]] for n, cs in simple], pi=rand_fracs(rng, dim), vals=rand_fracs(rng, 4))
+
+
+def coq_pmapns(c, r):
+    pis = "[" + ";".join(f"({n},{d})" for n, d in c["pi"]) + "]"
+    vals = c["vals"]
+    rules = "[" + ";".join(f"({zs(n)},{vals[i % len(vals)][0]},{vals[i % len(vals)][1]})" for i, n in enumerate(r["rule_names"])) + "]"
+    return (f"({'true' if VARIANT['exact_rule'] else 'false'}, {pis}, {coq_coords(r['rich_iter'])}, "
+            f"{coq_coords(r['simple_iter'])}, {rules})")
+
+
+def oracle_pmapns(c, r, nested_ok_ns):
+    """projection_exact_not_same on the implementation's projected values: Q_rich(c) * rho == pi_j * R_simple(c)"""
+    from fractions import Fraction
+
+    if not nested_ok_ns or isinstance(r["proj"], dict):
+        return []
+    pis = [Fraction(n, d) for n, d in c["pi"]]
+    rich, simple = r["rich_iter"], r["simple_iter"]
+    refcells = next(cs for n, cs in rich if n == "ref_cell")
+    rho = float(pis[refcells[0][1]])
+    if any(pis[cc[1]] != pis[refcells[0][1]] for cc in refcells):
+        return []
+    theta = {n: float(Fraction(*c["vals"][i % len(c["vals"])])) for i, n in enumerate(r["rule_names"])}
+    val = dict((n, v) for n, v in r["proj"])
+    cells = {tuple(x) for _, cs in rich for x in cs} | {tuple(x) for _, cs in simple for x in cs}
+    for cell in sorted(cells):
+        qr = 1.0
+        for n, cs in rich:
+            if n != "ref_cell" and list(cell) in cs:
+                qr *= val.get(n, 1.0)
+        qs = float(pis[cell[1]])
+        for n, cs in simple:
+            if n != "ref_cell" and list(cell) in cs:
+                qs *= theta[n]
+        if abs(qr * rho - qs) > 1e-9 * max(1.0, abs(qs)):
+            return [("pmapns:projection-not-exact", f"cell {cell}: Q_rich*rho = {qr * rho} != Q_simple = {qs}")]
+    return []
+
+
+def compare_pmapns(rep, cases, outs, proof_broken, disagreements, nontrivial):
+    from fractions import Fraction
+
+    ok = [(c, r) for c, r in zip(cases, outs) if "proj" in r]
+    for c, r in zip(cases, outs):
+        if "proj" not in r:
+            rep.violation("pmapns:harness-case-raised", dict(case=c, observed_impl=r, broken="runner raised"))
+    vals = None
+    try:
+        vals = core.coq_eval(PROP, ["Model.Nested", "Model.NestedNS", "Spec.NestedNSSpec", "Model.NestedNSRun"], "run_nscase",
+                             [coq_pmapns(c, r) for c, r in ok], "bool * list (Z * Z) * coords * coords * list (name * Z * Z)",
+                             shard=300, tag="ns")
+    except core.CheckError as e:
+        if not proof_broken:
+            raise
+        rep.notes.append(f"not-same model not runnable: {str(e)[:300]}")
+    n_ok = 0
+    for k, (c, r) in enumerate(ok):
+        mv = vals[k] if vals is not None else None
+        nok = bool(mv[1]) if mv is not None else False
+        n_ok += nok
+        bad = oracle_pmapns(c, r, nok)
+        small = dict(c)
+        for key, what in bad:
+            rep.violation(key, dict(case=small, observed_impl=r, expected_by_spec="Q_rich * rho == pi_j * R_simple on every cell "
+                                    "(projection_exact_not_same)", what=what, model_output=jsonable(mv),
+                                    broken="projection_exact_not_same on the implementation's projected rules"))
+        if mv is None or bad:
+            continue
+        if isinstance(r["proj"], dict) or not isinstance(mv[0], list):
+            same = isinstance(r["proj"], dict) and not isinstance(mv[0], list)
+        else:
+            mproj = sorted([n, Fraction(q[0], q[1])] for n, e, q in mv[0] if n != "length")
+            iproj = r["proj"]
+            same = len(mproj) == len(iproj) and all(a[0] == b[0] and abs(float(a[1]) - b[1]) <= 1e-12 * max(1.0, abs(b[1]))
+                                                    for a, b in zip(mproj, iproj))
+            if nok and iproj:
+                nontrivial.add(json.dumps(["pmapns", r["rich_iter"], r["simple_iter"], c["pi"]]))
+        if not same:
+            disagreements.append(dict(key="pmapns", case=small, observed_impl=r["proj"], model_output=str(jsonable(mv))[:1500]))
+    return n_ok
+
+
 # ====================================================================== the check
 
 def tier_sizes(tier):
     if tier == "quick":
-        return dict(wrap=1500, real=60, nested=26, nested_codon=2, hyp=6, hyp_opts=16, lfopt=16, pmap=300, scoped=400)
-    return dict(wrap=20000, real=1500, nested=700, nested_codon=40, hyp=160, hyp_opts=400, lfopt=500, pmap=4000, scoped=5000)
+        return dict(wrap=1500, real=60, nested=26, nested_codon=2, hyp=6, hyp_opts=16, lfopt=16, pmap=300, scoped=400, pmapns=300)
+    return dict(wrap=20000, real=1500, nested=700, nested_codon=40, hyp=160, hyp_opts=400, lfopt=500, pmap=4000, scoped=5000, pmapns=4000)
 
 
 def run(tier: str, seed: int) -> int:
@@ -1017,7 +1150,10 @@ def run(tier: str, seed: int) -> int:
     pmap_cases = [dict(kind="pmap", models=list(p)) for p in PMAP_PAIRS + (PMAP_CODON if tier != "quick" else PMAP_CODON_QUICK)]
     pmap_cases += [rand_pmap(rng) for _ in range(sz["pmap"])]
     scoped_cases = [rand_scoped(rng) for _ in range(sz["scoped"])]
-    light = wrap_cases + real_cases + pmap_cases + scoped_cases
+    pmapns_cases = [dict(kind="pmapns", models=list(p), pi=rand_fracs(rng, 4), vals=rand_fracs(rng, 5)) for p in PMAPNS_PAIRS
+                    for _ in range(3)]
+    pmapns_cases += [rand_pmapns(rng) for _ in range(sz["pmapns"])]
+    light = wrap_cases + real_cases + pmap_cases + scoped_cases + pmapns_cases
     heavy = corpus_nested() + corpus_hyp() + corpus_hyp_opts()
     heavy += [rand_nested(rng, tier) for _ in range(sz["nested"])]
     heavy += [rand_nested(rng, tier, codon=True) for _ in range(sz["nested_codon"])]
@@ -1034,10 +1170,12 @@ def run(tier: str, seed: int) -> int:
         light_out, heavy_out = fl.result(), fh.result()
     nw, nr, npm = len(wrap_cases), len(real_cases), len(pmap_cases)
     wrap_out, real_out = light_out[:nw], light_out[nw:nw + nr]
-    pmap_out, scoped_out = light_out[nw + nr:nw + nr + npm], light_out[nw + nr + npm:]
+    nsc = len(scoped_cases)
+    pmap_out, scoped_out = light_out[nw + nr:nw + nr + npm], light_out[nw + nr + npm:nw + nr + npm + nsc]
+    pmapns_out = light_out[nw + nr + npm + nsc:]
 
     disagreements = []
-    counts = dict(wrap=0, real=0, pmap=0, scoped=0, nested=0, hyp=0, lfopt=0)
+    counts = dict(wrap=0, real=0, pmap=0, scoped=0, pmapns=0, nested=0, hyp=0, lfopt=0)
     nontrivial = set()
     dist = dict(wrap_endings={}, wrap_local={}, nested_classes={}, hyp_classes={}, hyp_pairs={}, nested_pairs={}, lfopt_modes={})
 
@@ -1095,6 +1233,8 @@ def run(tier: str, seed: int) -> int:
     n_nested_ok = compare_nested_logic(rep, pmap_cases, pmap_out, scoped_cases, scoped_out, proof_broken, disagreements, nontrivial)
     dist["pmap_nested_ok"] = n_nested_ok
     counts["pmap"], counts["scoped"] = len(pmap_cases), len(scoped_cases)
+    dist["pmapns_nested_ok"] = compare_pmapns(rep, pmapns_cases, pmapns_out, proof_broken, disagreements, nontrivial)
+    counts["pmapns"] = len(pmapns_cases)
 
     # ---------------- (d) likelihood functions
     for c, r in zip(heavy, heavy_out):
@@ -1127,6 +1267,37 @@ def run(tier: str, seed: int) -> int:
                                                              "under optimisation; parameters within bounds; LR >= 0",
                                     observed_impl=r, what=what, broken="property C16 on real likelihood functions"))
 
+    # ---------------- (e) the app-level state machine Model.AppSeq.configure vs what was observed inside the apps
+    ECODE = {"AssertionError": 9, "NotImplementedError": 7, "IndexError": 1, "ValueError": 2, "KeyError": 5}
+    cfg_terms, cfg_obs, cfg_cases = [], [], []
+    for c, r in zip(heavy, heavy_out):
+        if c["kind"] != "hyp" or "per" not in r or not (c.get("sequential", True) and c.get("init_alt") is None):
+            continue
+        for i in range(1, len(r["nfp"])):
+            inits = r["per"][i]["init"]
+            if not inits:
+                continue
+            ini = inits[-1]
+            het = c["alts"][i - 1].get("app_args", {}).get("time_het") is not None
+            assertion = ini.get("exc") == "AssertionError" and ini["nfp_self"] <= ini["nfp_nested"]
+            pc = 0 if ("exc" not in ini or assertion) else ECODE.get(ini["exc"], 9)
+            nfin = r["nfp"][i]
+            cfg_terms.append(f"(true, true, {zlit(ini['nfp_nested'])}, {zlit(nfin)}, {'Some ' + zlit(nfin) if het else 'None'}, {pc})")
+            cfg_obs.append([1 if "exc" not in ini else [2, ECODE.get(ini["exc"], 9)], ini["nfp_self"]])
+            cfg_cases.append(dict(kind="hyp", case={k: v for k, v in c.items()}, alt=i))
+    if cfg_terms:
+        try:
+            mv = core.coq_eval(PROP, ["Model.Optim", "Model.Nested", "Model.AppSeq"], "run_cfg", cfg_terms,
+                               "bool * bool * Z * Z * option Z * Z", shard=400, tag="cfg")
+            for cc, o, m_ in zip(cfg_cases, cfg_obs, mv):
+                if o != m_:
+                    disagreements.append(dict(key="appseq", case=cc["case"], observed_impl=o, model_output=jsonable(m_)))
+        except core.CheckError as e:
+            if not proof_broken:
+                raise
+            rep.notes.append(f"app-sequence model not runnable: {str(e)[:300]}")
+    dist["appseq_configure_compared"] = len(cfg_terms)
+
     # model/implementation differences are reported even when other (possibly known) violations exist
     for d in disagreements[:3]:
         d = dict(d)
@@ -1154,9 +1325,11 @@ def run(tier: str, seed: int) -> int:
             "lnL(alt init) = lnL(null) is proved as equality of the per-cell products of rate parameters (projection_exact, "
             "initialised_rates_exact) and of the per-(parameter, edge) values (scope_exact) under the stated nesting conditions; "
             "that equal rate matrices give equal likelihood is not re-proved here (C02/C05; checked numerically on real functions)",
-            "the non-stationary projection (_rate_not_same, e.g. GTR -> GN: value * pi_j / pi_ref) is not modelled; compared "
+            "bins / loci > 1: the refusal (compatible_likelihood_functions) is modelled and proved (bins_refused); what exact "
+            "initialisation would mean is stated as Definition stmt_bins_exact, not a theorem about the code",
+            "stationary -> non-stationary projection: projection_exact_not_same covers rich parameters whose cells share one "
+            "target state (GN); ssGN (two target states per parameter, exact only for equal motif probabilities) is compared "
             "numerically only",
-            "bins / loci > 1: initialise_from_nested refuses (NotImplementedError); not modelled",
             "theorems for the nested initialisation are stated for both transcribed variants of the source (pinned / with proposed "
             "fixes); the two *_refuted theorems show the pinned variant violating totality / exactness on nested inputs",
         ],
@@ -1198,7 +1371,9 @@ def replay(path: str) -> int:
         rep = core.Report(PROP, "replay", 0)
         rep.findings = []
         dis = []
-        if k == "pmap":
+        if k == "pmapns":
+            compare_pmapns(rep, [c], [r], False, dis, set())
+        elif k == "pmap":
             compare_nested_logic(rep, [c], [r], [], [], False, dis, set())
         else:
             compare_nested_logic(rep, [], [], [c], [r], False, dis, set())
